@@ -12,7 +12,13 @@ RULE = ("seeded + enumerated strings: every subset of the six designators Y M D 
         "fraction), degenerate strings (correspondence only), and the three interval forms with UTC/fixed-offset/naive datetimes. Every duration string is "
         "evaluated through pendulum.parse, pendulum.parsing.iso8601.parse_iso8601 and pendulum._pendulum.parse_iso8601 and compared with the Coq models "
         "py_dur / rs_dur / rs_raw; the oracle recomputes the value with fractions.Fraction from the components the string was built from. "
-        "A case is non-trivial when it has at least one component (all but the degenerate stream).")
+        "A case is non-trivial when it has at least one component (all but the degenerate stream). "
+        "Degenerate fractions (deterministic over the shapes, only the integer parts drawn): fraction digit strings of 1..9, 12, 17 and 25 digits that are all zeros, "
+        "end in zeros or start with zeros, with '.' and ',', (degenerate-frac-rejected, 2652 strings) on the year and the month designator in every position those "
+        "tokens can take and on every non-final component (every ordered pair of D H M S, with integer components in front, a second fraction behind, weeks followed by "
+        "anything) - the oracle demands a ValueError from both backends and all three entry points are compared with the models; (degenerate-frac-final, 612 strings) the "
+        "same fractions on the last component D H M S W, bare and after all larger units, checked against the exact Fraction value; and the rejected ones through the "
+        "interval glue in both duration positions (interval-malformed, +180).")
 EXHAUSTIVE = {"quick": False, "thorough": False}
 TRUSTED = ["rustc/pyo3: rust/src/parsing.rs parse_duration is modelled by hand in coq/Model/DurParse.v (u32 wrap-around explicit, f64 over Coq SpecFloat); "
            "tied by the rs_raw stream, which compares all eight raw u32 fields of _pendulum.Duration",
@@ -137,6 +143,80 @@ def gen_malformed(rnd):
     return out
 
 
+# the class "degenerate fractions": a fraction whose VALUE is zero (or whose digits start / end with zeros) is still a fraction.
+# Deterministic over the digit counts 1..9 (+ three longer ones) x '.'/',' x every designator; only the integer parts are drawn.
+ZERO_ND = list(range(1, 10)) + [12, 17, 25]
+
+
+def _frac_shapes(rnd, nd):
+    """fraction digit strings of length nd: all zeros (the degenerate value), trailing zeros, leading zeros, one random"""
+    out = ["0" * nd]
+    if nd > 1:
+        out += [rnd.choice("123456789") + "0" * (nd - 1), "0" * (nd - 1) + rnd.choice("123456789")]
+    return out
+
+
+def _ip(rnd):
+    return rnd.choice(["0", "1", "2", "3", "10", "007", "00", "12", str(rnd.randint(0, 9999)), "0" + str(rnd.randint(1, 99))])
+
+
+def gen_degenerate_fractions(rnd):
+    out = []
+
+    def rej(text, kind):
+        out.append({"stream": "degenerate-frac-rejected", "fn": "dur", "args": [text, {"kind": kind, "comp": None}]})
+
+    for nd in ZERO_ND:
+        for sep in ".,":
+            for z in _frac_shapes(rnd, nd):
+                f = sep + z
+                # (a) a fraction on the year / month designator, alone and in every position a Y or M(month) token can take
+                a, b = _ip(rnd), _ip(rnd)
+                for text in (f"P{a}{f}Y", f"P{a}{f}M", f"P1{f}Y", f"P2{f}M", f"P{b}Y{a}{f}M", f"P{a}{f}Y{b}M", f"P{a}{f}Y2M3DT4H", f"P{a}{f}YT1H",
+                             f"P{b}Y{a}{f}M3D", f"P1Y{a}{f}M3DT4H5M6S", f"P{a}{f}MT{b}S", f"P{a}{f}Y{b}{f}M", f"P{a}{f}M{b}D", f"P{a}{f}YT",
+                             f"P{a}{f}Y{b}{sep}5D", f"P{a}{f}MT{b}{sep}5S"):
+                    rej(text, "frac-ym")
+                # (b) a fraction on a component that is not the last one (every ordered pair of the units D H M S, with and without larger
+                #     integer components in front, a second fraction behind, and the week designator followed by anything)
+                a, b, c = _ip(rnd), _ip(rnd), _ip(rnd)
+                for text in (f"P{a}{f}DT{b}H", f"P{a}{f}DT{b}M", f"P{a}{f}DT{b}S", f"PT{a}{f}H{b}M", f"PT{a}{f}H{b}S", f"PT{a}{f}M{b}S",
+                             f"P{a}{f}DT{b}H{c}M", f"PT{a}{f}H{b}M{c}S", f"P{c}Y{a}{f}DT{b}H", f"P{c}M{a}{f}DT{b}S", f"P{c}DT{a}{f}H{b}M",
+                             f"P1Y2M3DT{a}{f}H{b}M{c}S", f"P1Y2M3DT4H{a}{f}M{c}S", f"PT{a}{f}H{b}{sep}5M", f"PT{a}{sep}5H{b}{f}M",
+                             f"PT{a}{f}H{b}{f}M", f"P{a}{f}DT{b}{f}S", f"PT{a}{f}M{b}{f}S", f"P{a}{f}DT0S", f"PT{a}{f}H0M",
+                             f"P{a}{f}W{b}D", f"P{a}{f}WT{b}H", f"P0{f}W{b}D"):
+                    rej(text, "after-frac")
+    # (c) the same fractions on the LAST component are valid and worth exactly what their digits say (a zero fraction: the integer value)
+    order = ["Y", "M", "D", "H", "m", "S"]
+    for nd in ZERO_ND:
+        for sep in ".,":
+            for z in _frac_shapes(rnd, nd):
+                for unit in ("D", "H", "m", "S", "W"):
+                    for full in (False, True):
+                        comp = {}
+                        if full and unit != "W":
+                            for u in order[:order.index(unit)]:
+                                comp[u] = str(rnd.randint(0, 40))
+                        elif full:
+                            continue
+                        comp[unit] = _ip(rnd)
+                        comp["frac"] = [unit, sep, z]
+                        out.append(dur_case("degenerate-frac-final", comp))
+    return out
+
+
+def gen_degenerate_intervals(rnd):
+    """the rejected degenerate fractions through the interval glue (start/duration and duration/end)"""
+    out = []
+    for nd in (1, 2, 3, 6, 9):
+        for sep in ".,":
+            f = sep + "0" * nd
+            for d in (f"P1{f}Y", f"P2{f}M", f"P1Y2{f}M3D", f"P3{f}Y2M", f"PT1{f}H30M", f"P1{f}DT12H", f"PT1{f}M30S", f"PT1{f}H1{sep}5M", f"P0{f}W2D"):
+                a = iso_dt(rnd, "dt")
+                for text in (a + "/" + d, d + "/" + a):
+                    out.append({"stream": "interval-malformed", "fn": "interval", "args": [text, {"form": -1, "a": None, "b": None, "comp": None}]})
+    return out
+
+
 def gen_spec(rnd, n):
     out = []
     for _ in range(n):
@@ -216,6 +296,10 @@ def cases(tier, seed):
     out += gen_malformed(rnd)
     out += gen_spec(rnd, 5000 if big else 500)
     out += gen_intervals(rnd, 60000 if big else 12000)
+    # the degenerate-fraction class draws from a generator of its own, so the streams above are the same strings as before it was added
+    rnd2 = random.Random(seed * 7919 + 13)
+    out += gen_degenerate_fractions(rnd2)
+    out += gen_degenerate_intervals(rnd2)
     return out
 
 
@@ -553,3 +637,13 @@ TRUSTED = list(TRUSTED) + [
 ]
 LEVEL_NOTE = LEVEL_NOTE + (" Update: the fractional week is closed (coq/Proofs/DurParseWeekCarry.v: for x = int(portion)/10*7 CPython's float x // 1, x % 1, int() agree with the hand model's trunc "
                            "and x - trunc x): model_is_code_parse_iso8601_duration holds for EVERY match record whose week fraction digits are worth less than 10^15 (at most 15 digits), nothing else bounded.")
+
+
+# degenerate fractions: the rejection of a fraction that is not on the last component is proved, not only sampled
+LEVEL_NOTE = LEVEL_NOTE + (" Fractions off the last component (Proofs/C13AfterFrac.v, closed under the global context, inside the Coq model - no oracle-only stream was needed): "
+                           "dur_rs_after_fraction_only_T (the loop of the compiled parser, from EVERY state: once last_had_fraction is set nothing but a lone trailing 'T' is accepted), "
+                           "dur_frac_nonfinal_rejected_rs_date / _time (any integer-token prefix, any digit strings - zeros only included -, both separators, any designator, any continuation), "
+                           "dur_frac_nonfinal_rejected_py / dur_frac_nonfinal_py_args (every string / every match record: a fractional D, H or M group in front of a later time group never "
+                           "returns from py_args), dur_degenerate_fraction_witnesses (P1.0Y P2,00M P1Y2.0M3D P1.000000000Y PT1.0H30M P1.0DT12H PT1,00M30S PT1.0H1.5M P0.0W2D rejected by "
+                           "all three models, P1.0D / PT1,000S accepted with the integer value). 'Fractional' is a property of the text of a component, not of its value; the streams "
+                           "degenerate-frac-rejected / degenerate-frac-final / interval-malformed tie these theorems to both implementations on every run.")
